@@ -731,6 +731,60 @@ P("filter_by_mask_of_other_layout", lambda t: t.df[t.df.repartition(npartitions=
 P("filter_by_mask_of_other_layout_sum", lambda t: t.df[t.df.repartition(npartitions=2).u > 4].b.sum() if t.lazy else t.df[t.df.u > 4].b.sum(), needs_known=True)
 P("filter_by_mask_of_other_frame", lambda t: t.df[t.df3.u > 105], needs_known=True, needs_range=True)
 P("filter_by_mask_of_other_frame_sum", lambda t: t.df[t.df3.u > 103].u.sum(), needs_known=True, needs_range=True)
+# --- round 4 -------------------------------------------------------------------------------------------------------
+# the former (unnamed) index selected out of Series.reset_index(), next to the values column
+P("series_reset_index_former_index", lambda t: t.df.a.reset_index()["index"], needs_range=True)
+P("series_reset_index_values_column", lambda t: t.df.a.reset_index()["a"], needs_range=True)
+P("series_reset_index_former_index_filtered", lambda t: (lambda r: r[r["index"] > 2])(t.df.u.reset_index()), needs_range=True)
+# joins on differently named keys, filtered on the key of the side whose unmatched rows the join does NOT keep
+for _how in ("left", "right", "outer", "inner"):
+    P(f"merge_diffkeys_{_how}_filter_right_key", lambda t, h=_how: (lambda m: m[m.j > 1])(t.df[["a", "u"]].merge(t.df2[["a", "w"]].rename(columns={"a": "j"}), left_on="a", right_on="j", how=h)), order_free=True, index_free=True)
+    P(f"merge_diffkeys_{_how}_filter_left_key", lambda t, h=_how: (lambda m: m[m.a > 1])(t.df[["a", "u"]].merge(t.df2[["a", "w"]].rename(columns={"a": "j"}), left_on="a", right_on="j", how=h)), order_free=True, index_free=True)
+# column selections of combine_first of two independent sources that share a column with missing values
+# (operands with unknown divisions are aligned by a hash shuffle: row order undefined)
+P("combine_first_other_source_shared_column", lambda t: t.df[["a", "b"]].combine_first(t.df3[["b", "u"]])[["b"]], needs_range=True, order_free=True)
+P("combine_first_other_source_two_columns", lambda t: t.df[["a", "b", "u"]].combine_first(t.df3[["b", "u", "f"]])[["b", "f"]], needs_range=True, order_free=True)
+P("combine_first_other_source_series", lambda t: t.df[["a", "b"]].combine_first(t.df3[["b", "u"]])["b"], needs_range=True, order_free=True)
+# drop_duplicates(subset, keep) followed by a selection that leaves columns unused
+for _keep in ("first", "last"):
+    P(f"drop_duplicates_subset_keep_{_keep}_then_project", lambda t, k=_keep: t.df.drop_duplicates(subset=["a"], keep=k)[["a", "u"]], order_free=True)
+    P(f"drop_duplicates_subset_keep_{_keep}_then_series", lambda t, k=_keep: t.df.drop_duplicates(subset=["a", "d"], keep=k)["u"], order_free=True)
+# merge with a single-partition side and an explicit npartitions= (partition structure must stay truthful)
+for _np in (2, 7):
+    P(f"merge_single_partition_side_np{_np}", lambda t, n=_np: t.df[["a", "u"]].merge(t.df2[["a", "w"]].repartition(npartitions=1), on="a", npartitions=n) if t.lazy else t.df[["a", "u"]].merge(t.df2[["a", "w"]], on="a"), order_free=True, index_free=True)
+    P(f"merge_single_partition_left_np{_np}", lambda t, n=_np: t.df2[["a", "w"]].repartition(npartitions=1).merge(t.df[["a", "u"]], on="a", how="right", npartitions=n) if t.lazy else t.df2[["a", "w"]].merge(t.df[["a", "u"]], on="a", how="right"), order_free=True, index_free=True)
+# reductions over both axes
+P("mean_axis_none", lambda t: t.df[["a", "u", "f"]].mean(axis=None))
+P("mean_axis_none_after_op", lambda t: (t.df[["a", "u"]] + 1).mean(axis=None))
+# unnamed Index through the shuffle reductions
+P("index_unnamed_unique", lambda t: (t.df.index.unique() if t.lazy else pd.Index(t.df.index.unique())).to_series(), needs_range=True, order_free=True, index_free=True)
+P("index_unnamed_drop_duplicates_split2", lambda t: (t.df.index.drop_duplicates(split_out=2) if t.lazy else t.df.index.drop_duplicates()).to_series(), needs_range=True, order_free=True, index_free=True)
+P("index_unnamed_unique_of_filtered", lambda t: (t.df[t.df.a > 1].index.unique() if t.lazy else pd.Index(t.df[t.df.a > 1].index.unique())).to_series(), needs_range=True, order_free=True, index_free=True)
+# windows given as NumPy integers
+P("shift_numpy_int", lambda t: t.df[["u", "b"]].shift(np.int64(1)), tags={"window"})
+P("diff_numpy_int", lambda t: t.df.u.diff(np.int64(2)), tags={"window"})
+P("ffill_limit_numpy_int", lambda t: t.df.b.ffill(limit=np.int64(1)), tags={"window"})
+P("shift_numpy_int_neg", lambda t: t.df.u.shift(np.int64(-1)), tags={"window"})
+# set_index(sorted=True) on a frame with an emptied partition before a non-empty one
+P("set_index_presorted_after_gap_filter", lambda t: t.df[(t.df.u < 6) | (t.df.u > 16)][["u", "a"]].set_index("u", sorted=True) if t.lazy else t.df[(t.df.u < 6) | (t.df.u > 16)][["u", "a"]].set_index("u"))
+P("set_index_presorted_after_head_gap_filter", lambda t: t.df[t.df.u > 8][["u", "b"]].set_index("u", sorted=True) if t.lazy else t.df[t.df.u > 8][["u", "b"]].set_index("u"))
+# an element-wise operation stacked on an operation whose operands have different rows: len / head / tail / size
+P("len_of_op_on_misaligned_op", lambda t: len((t.df.u + t.df.b[t.df.b > 2]) * 2), dask_only=False)
+P("head_of_op_on_misaligned_op", lambda t: ((t.df.u + t.df.b[t.df.b > 2]) * 2).head(3, compute=False) if t.lazy else ((t.df.u + t.df.b[t.df.b > 2]) * 2).head(3), tags={"head"}, dask_only=True)
+P("tail_of_fillna_on_misaligned_assign", lambda t: t.df[["a", "u"]].assign(z=t.df.b[t.df.b > 3]).fillna(0).tail(3, compute=False) if t.lazy else t.df[["a", "u"]].assign(z=t.df.b[t.df.b > 3]).fillna(0).tail(3), tags={"head"}, dask_only=True)
+# a column assigned from a differently partitioned source, then a selection keeping several columns
+P("assign_from_other_layout_then_project", lambda t: t.df.assign(z=t.df.repartition(npartitions=2).u)[["a", "b", "z"]] if t.lazy else t.df.assign(z=t.df.u)[["a", "b", "z"]], needs_known=True, order_free=True)
+P("assign_from_other_layout_then_project4", lambda t: t.df.assign(z=t.df.repartition(npartitions=2).u, y=t.df.repartition(npartitions=2).f)[["u", "a", "y", "b"]] if t.lazy else t.df.assign(z=t.df.u, y=t.df.f)[["u", "a", "y", "b"]], needs_known=True, order_free=True)
+# a Series whose index reaches beyond the frame's: pandas keeps the frame's rows only (known finding KF-C02-assign-series-beyond-index)
+P("assign_series_beyond_index", lambda t: t.df[["a", "u"]].assign(z=t.df4.u), needs_known=True, needs_range=True, only={"C02"})
+# a staged task shuffle with as many outputs as inputs and a selection that is not a prefix (contains the first stage's digits)
+P("staged_shuffle_same_count_selection", lambda t: t.df.shuffle("a", max_branch=2, shuffle_method="tasks").partitions[[0, 1, 3]] if t.lazy else t.df, dask_only=True, order_free=True, only={"C01", "C05", "C06", "C07", "C09", "C11", "C14"})
+# broadcast join followed by a selection that is not a prefix
+P("merge_bcast_inner_partition_not_prefix", lambda t: t.df[["a", "u"]].merge(t.df2[["a", "w"]].repartition(npartitions=2), on="a", how="inner", broadcast=True).partitions[[2]] if t.lazy else t.df, dask_only=True, order_free=True, only={"C01", "C05", "C06", "C07", "C09", "C11", "C14"})
+P("merge_bcast_inner_tail", lambda t: t.df[["a", "u"]].merge(t.df2[["a", "w"]].repartition(npartitions=2), on="a", how="inner", broadcast=True).tail(2, compute=False) if t.lazy else t.df, dask_only=True, order_free=True, only={"C01", "C05", "C06", "C07", "C09", "C11", "C14"})
+# a chain on a single-partition frame consumed by two multi-partition groups
+P("single_partition_chain_two_consumers", lambda t: (lambda s: t.dd.concat([t.df[["a", "u"]].merge(s, on="a").assign(z=1), t.df[["a", "u"]].merge(s, on="a", how="left").assign(z=2)]))((t.df2[["a", "w"]].repartition(npartitions=1) + 1) * 2) if t.lazy else (lambda s: pd.concat([t.df[["a", "u"]].merge(s, on="a").assign(z=1), t.df[["a", "u"]].merge(s, on="a", how="left").assign(z=2)]))((t.df2[["a", "w"]] + 1) * 2), order_free=True, index_free=True)
+P("single_partition_chain_map_partitions_two_consumers", lambda t: (lambda s: (t.df.u + s.w.sum()) + (t.df.a * s.w.max()).fillna(0))((t.df2[["a", "w"]].repartition(npartitions=1) + 1) * 2) if t.lazy else (lambda s: (t.df.u + s.w.sum()) + (t.df.a * s.w.max()).fillna(0))((t.df2[["a", "w"]] + 1) * 2))
 P("tail_after_noop_repartition", lambda t: (t.df[["a", "u"]] + 1).repartition(npartitions=t.df.npartitions).tail(3, compute=False) if t.lazy else (t.df[["a", "u"]] + 1).tail(3), tags={"head"}, dask_only=True)
 P("head_after_noop_repartition", lambda t: (t.df[["a", "u"]] + 1).repartition(npartitions=t.df.npartitions).head(3, compute=False) if t.lazy else (t.df[["a", "u"]] + 1).head(3), tags={"head"}, dask_only=True)
 P("value_counts_tree", lambda t: t.df.a.value_counts(split_out=1, split_every=2) if t.lazy else t.df.a.value_counts(), order_free=True)
